@@ -19,7 +19,7 @@ import (
 // (result #idx of callee), or nil.
 func singleDefCall(c *core.Ctx, e ast.Expr, idx int, callees ...string) *ast.CallExpr {
 	ns := core.Names(callees...)
-	id, ok := ast.Unparen(e).(*ast.Ident)
+	id, ok := core.Origin(c, e).(*ast.Ident)
 	if !ok {
 		return nil
 	}
@@ -28,7 +28,7 @@ func singleDefCall(c *core.Ctx, e ast.Expr, idx int, callees ...string) *ast.Cal
 		return nil
 	}
 	var hit *ast.CallExpr
-	for _, d := range c.DefsOf(o) {
+	for _, d := range core.LiveDefs(c.DefsOf(o)) {
 		if _, isDecl := d.Stmt.(*ast.ValueSpec); isDecl && d.Rhs == nil {
 			continue
 		}
@@ -233,7 +233,7 @@ func gateFuncs(r *Run) (base, wrappers []*core.FuncInfo) {
 	isGate := map[*types.Func]bool{}
 	for _, f := range r.W.AllFuncs(pkg) {
 		found := false
-		ast.Inspect(f.Body(), func(x ast.Node) bool {
+		core.InspectBody(f, func(x ast.Node) bool {
 			if call, ok := x.(*ast.CallExpr); ok {
 				if fn := core.Callee(f.Info(), call); fn != nil && core.ShortName(fn) == "rpc.checkGrpcFuncValidity" {
 					found = true
@@ -253,7 +253,7 @@ func gateFuncs(r *Run) (base, wrappers []*core.FuncInfo) {
 				continue
 			}
 			all, n := true, 0
-			ast.Inspect(f.Body(), func(x ast.Node) bool {
+			core.InspectBody(f, func(x ast.Node) bool {
 				if _, ok := x.(*ast.FuncLit); ok {
 					return false
 				}
@@ -291,7 +291,7 @@ func serviceStreams(w *core.World, fn *types.Func) (n int, names []string, ok bo
 		return 0, nil, false
 	}
 	var desc types.Object
-	ast.Inspect(f.Body(), func(x ast.Node) bool {
+	core.InspectBody(f, func(x ast.Node) bool {
 		call, isCall := x.(*ast.CallExpr)
 		if !isCall {
 			return true
@@ -419,7 +419,7 @@ func resolveFuncValue(c *core.Ctx, e ast.Expr) *core.FuncInfo {
 // rpcFieldsRead lists the fields of types.RPC named in want that f reads.
 func rpcFieldsRead(f *core.FuncInfo, want map[string]bool) []string {
 	set := map[string]bool{}
-	ast.Inspect(f.Body(), func(x ast.Node) bool {
+	core.InspectBody(f, func(x ast.Node) bool {
 		sel, ok := x.(*ast.SelectorExpr)
 		if !ok {
 			return true
@@ -490,7 +490,7 @@ func init() {
 				var parsed types.Object
 				nRead := 0
 				var codecCall *ast.CallExpr
-				ast.Inspect(f.Body(), func(x ast.Node) bool {
+				core.InspectBody(f, func(x ast.Node) bool {
 					call, ok := x.(*ast.CallExpr)
 					if !ok {
 						return true
@@ -509,7 +509,7 @@ func init() {
 					case "net/rpc/jsonrpc.NewServerCodec":
 						codecCall = call
 					}
-					if core.Mentions("net/http.Request.Body")(c, call) && len(call.Args) > 0 && core.Mentions("net/http.Request.Body")(c, call.Args[0]) {
+					if core.MentionsDirect("net/http.Request.Body")(c, call) && len(call.Args) > 0 && core.MentionsDirect("net/http.Request.Body")(c, call.Args[0]) {
 						nRead++
 					}
 					return true
@@ -534,7 +534,7 @@ func init() {
 				if pf := r.Fn("rpc.parseJSONRpcParams"); pf != nil {
 					label := "rpc.parseJSONRpcParams decodes member \"method\" of its argument with encoding/json"
 					okCall := false
-					ast.Inspect(pf.Body(), func(x ast.Node) bool {
+					core.InspectBody(pf, func(x ast.Node) bool {
 						if call, ok := x.(*ast.CallExpr); ok {
 							if fn := core.Callee(pf.Info(), call); fn != nil && core.ShortName(fn) == "encoding/json.Unmarshal" && len(call.Args) == 2 &&
 								core.Mentions("param:0")(pf.Ctx(), call.Args[0]) {
@@ -572,7 +572,7 @@ func init() {
 					c := f.Ctx()
 					gate := r.Fn(jsonHandler)
 					n := 0
-					ast.Inspect(f.Body(), func(x ast.Node) bool {
+					core.InspectBody(f, func(x ast.Node) bool {
 						call, ok := x.(*ast.CallExpr)
 						if !ok {
 							return true
@@ -633,7 +633,7 @@ func init() {
 					for _, f := range r.W.AllFuncs(pkg) {
 						c := f.Ctx()
 						var newServer *ast.CallExpr
-						ast.Inspect(f.Body(), func(x ast.Node) bool {
+						core.InspectBody(f, func(x ast.Node) bool {
 							if call, ok := x.(*ast.CallExpr); ok {
 								if fn := core.Callee(c.Info, call); fn != nil && core.ShortName(fn) == "google.golang.org/grpc.NewServer" {
 									newServer = call
@@ -694,7 +694,7 @@ func init() {
 				if pkg := r.W.Pkg("rpc/ethrpc"); pkg != nil {
 					n := 0
 					for _, f := range r.W.AllFuncs(pkg) {
-						ast.Inspect(f.Body(), func(x ast.Node) bool {
+						core.InspectBody(f, func(x ast.Node) bool {
 							lit, ok := x.(*ast.CompositeLit)
 							if !ok {
 								return true
@@ -776,7 +776,7 @@ func checkGrpcServer(r *Run, f *core.FuncInfo, newServer *ast.CallExpr) {
 	// registered services and their streams
 	streams := 0
 	var streamWhy []string
-	ast.Inspect(f.Body(), func(x ast.Node) bool {
+	core.InspectBody(f, func(x ast.Node) bool {
 		call, ok := x.(*ast.CallExpr)
 		if !ok || len(call.Args) == 0 {
 			return true
@@ -812,7 +812,7 @@ func checkGrpcServer(r *Run, f *core.FuncInfo, newServer *ast.CallExpr) {
 		kind string
 	}
 	var found []icpt
-	ast.Inspect(f.Body(), func(x ast.Node) bool {
+	core.InspectBody(f, func(x ast.Node) bool {
 		call, ok := x.(*ast.CallExpr)
 		if !ok {
 			return true
